@@ -26,17 +26,21 @@ open Ymq.Gen
 
 /-- A giant-step description `(first, pushed, loopLo)`: multiples `first, first+1, ..` of `d1`;
 `pushed` of them explicitly and one per iteration of `for _ in loopLo..d2`. -/
-def giantCount (g : Nat × Nat × Nat) (d2 : Nat) : Nat := g.2.1 + (d2 - g.2.2)
+def giantCount : Nat × Nat × Nat → Nat → Nat
+  | (_, pushed, loopLo), d2 => pushed + (d2 - loopLo)
 
 /-- exclusive upper end of the giant-step multipliers -/
-def giantHi (g : Nat × Nat × Nat) (d2 : Nat) : Nat := g.1 + giantCount g d2
+def giantLo : Nat × Nat × Nat → Nat
+  | (first, _, _) => first
 
-def isGiant (g : Nat × Nat × Nat) (d2 i : Nat) : Bool := g.1 ≤ i && i < giantHi g d2
+def giantHi (g : Nat × Nat × Nat) (d2 : Nat) : Nat := giantLo g + giantCount g d2
+
+def isGiant (g : Nat × Nat × Nat) (d2 i : Nat) : Bool := giantLo g ≤ i && i < giantHi g d2
 
 /-! ### ECM (both implementations): `for b in lo..d1/div { if gcd(b, d1) == 1 { bs.push(b) } }` -/
 
-def isEcmBabyOf (bb : Nat × Nat) (d1 b : Nat) : Bool :=
-  bb.1 ≤ b && b < d1 / bb.2 && Nat.gcd b d1 == 1
+def isEcmBabyOf : Nat × Nat → Nat → Nat → Bool
+  | (lo, dv), d1, b => lo ≤ b && b < d1 / dv && Nat.gcd b d1 == 1
 
 /-- `m = i*d1 + b` or `m = i*d1 - b` for a giant step `i` and a baby step `b` (decision by the
 residue of `m` modulo `d1`: `b = m % d1` with `i = m / d1`, or `b = d1 - m % d1` with `i = m / d1 + 1`). -/
@@ -52,9 +56,10 @@ def ecmPanics (d1 : Nat) : Bool := !(isEcmBabyOf Stage2Arms.ecmBaby d1 1)
 
 /-! ### P+1: `exp = start` is kept; then `while exp + step < d1/div { exp += step; keep if exp % 3 != 0 && gcd(exp, d1) == 1 }` -/
 
-def isPp1BabyOf (bb : Nat × Nat × Nat) (d1 b : Nat) : Bool :=
-  b == bb.1 ||
-  (bb.1 < b && (b - bb.1) % bb.2.1 == 0 && b < d1 / bb.2.2 && b % 3 != 0 && Nat.gcd b d1 == 1)
+def isPp1BabyOf : Nat × Nat × Nat → Nat → Nat → Bool
+  | (start, step, dv), d1, b =>
+    b == start ||
+    (start < b && (b - start) % step == 0 && b < d1 / dv && b % 3 != 0 && Nat.gcd b d1 == 1)
 
 def pp1IsGrid (d1 d2 m : Nat) : Bool := symIsGrid (isPp1BabyOf Stage2Arms.pp1Baby d1) Stage2Arms.pp1Giant d1 d2 m
 
@@ -64,9 +69,10 @@ def pp1Panics (d1 : Nat) : Bool := d1 % 6 != 0
 /-! ### P-1, polynomial evaluation -/
 
 /-- baby steps: `b = start` kept; `while b < d1 { b += step; if b % 3 == 0 || gcd(b, d1) != 1 { continue }; keep }` -/
-def isPm1BabyOf (bb : Nat × Nat) (d1 r : Nat) : Bool :=
-  r == bb.1 ||
-  (bb.1 < r && (r - bb.1) % bb.2 == 0 && r - bb.2 < d1 && r % 3 != 0 && Nat.gcd r d1 == 1)
+def isPm1BabyOf : Nat × Nat → Nat → Nat → Bool
+  | (start, step), d1, r =>
+    r == start ||
+    (start < r && (r - start) % step == 0 && r - step < d1 && r % 3 != 0 && Nat.gcd r d1 == 1)
 
 def isPm1Baby (d1 r : Nat) : Bool := isPm1BabyOf Stage2Arms.pm1Baby d1 r
 
